@@ -126,7 +126,9 @@ SOUP_PUNCT = PUNCTUATORS
 SOUP_WS = [' ', ' ', ' ', '  ', '\t', '\x0b', '\x0c', '\xa0', '\ufeff', '\u2003', '\u1680', '\u3000', '\u202f']
 SOUP_LT = ['\n', '\r', '\r\n', '\u2028', '\u2029', '\n\n', '\r\r\n', '\n\r']
 SOUP_COMMENTS = ['/* c */', '/**/', '/* a\n b */', '/* a\r\n b\r c */', '/* x y z */', '// line',
-                 '//', '/* * / ** */', '/*\n*/']
+                 '//', '/* * / ** */', '/*\n*/',
+                 # bodies that begin or end with the characters of the delimiters
+                 '/*/ a */', '/*/*/', '/***/', '/*//*/', '/** /* */', '/*/\n/*/', '///', '// */', '//* x', '/*\\*/']
 
 
 # characters no token can start with and that are not white space: the lexer has to stop at them
